@@ -6,21 +6,55 @@
 (*     (BeyondRankZero, evaluated on the recorded state), the ledger residuals of the components within     *)
 (*     the rank are inside TolAlg, explained variance is finite and never exceeds 100 %.                   *)
 (*   Impl layer (off when PropOnly): every Start / Iter / Null event is a step of the Guarded model with    *)
-(*     exactly the value classes the model predicts.                                                       *)
-EXTENDS Nipals, TraceBase, Integers
+(*     exactly the value classes the model predicts - under the processor count the case was run with      *)
+(*     (NipalsMT.tla: both kernels filter non-finite products, so no pass may report a NaN normaliser).     *)
+(* The verdict on a returned component is taken HERE, not in the harness: the harness logs the explained   *)
+(* variance of every component (vx, 1e-12 percent units) and a non-finite flag (nf); ClsOf classifies with *)
+(* VarZeroQ, a function of the logged column offset (class K3: centring data that sit on an offset 2^offl   *)
+(* leaves a rounding residue ~ 2^(offl-52) in every cell, i.e. a variance ~ 4^(offl-52) next to unit-size data). *)
+EXTENDS NipalsMT, TraceBase, Integers
 CONSTANTS PropOnly,
           TolAlg,      \* ledger bound in 1e-12 units (1e-8)
           TolVar,      \* explained-variance excess bound in 1e-9 units
           TolGap       \* |sum of explained variance - 100 %| when the whole rank was extracted, 1e-9 units
-VARIABLES l, lastit
-tvars == <<vars, l, lastit>>
+VARIABLES l, lastit,
+          meta         \* what the Reset line says about the input beyond the model's own variables: offl (log2 of the column offset, 0 = none),
+                       \* sc (log2 of the whole-input scale divisor), nr (objects), hist (1: other fits ran first in the same process), warmed (their Warm line was seen)
+tvars == <<mvars, l, lastit, meta>>
 Ev == Tr[l]
 Step == l' = l + 1
 IsEv(name) == l <= Len(Tr) /\ Ev.e = name
+Same == UNCHANGED <<nproc, meta, capleft>>          \* capleft: the pass ceiling is not followed line by line (a capped latent variable shows as k passes)
+
+KMeansCap == 100                                      \* clustering.c: shouldStop(centroids, oldcentroids, it, 100)
+NMCap(dim, it) == (dim + 1) + it * (dim + 3)          \* optimization.c: dim + 1 start vertices, per round at most reflection + one more point + dim + 1 (shrink)
+\* ---- tolerances as functions of the logged input (class K3: location, K4: magnitude).  meta.offl = log2 of the column offset (0 = none),
+\* meta.sc = log2 of the factor the whole input was divided by, meta.nr = number of objects.
+\* Centring residue: the mean of n values below 3*2^offl + 2^21 is off by at most (n-1) roundings of partial sums below n*3*2^offl, divided by n:
+\*   rho <= 3 (n-1) 2^(offl-52)            (attained: offl = 26, n = 3 gives 8.94e-8, the largest residual the harness has logged there).
+\* Every centred cell carries up to rho, a rank-one disturbance outside the mathematically defined components.  Residuals are taken relative to
+\* max(2^-sc, max|X_c|), so the reconstruction residual may exceed TolAlg by rho * 2^sc;  in 1e-12 units  3 (n-1) 2^(offl+sc-52) 10^12
+\* = 699 (n-1) 2^(offl+sc-20)  (10^12 2^(20-52) = 232.8, rounded up to 233;  offl = 26, n = 3: 89472).
+\* The variance such a disturbance can show: 100 n rho^2 / ss percent with ss >= 4^-sc / 2 (a non-constant integer column has a centred sum of
+\* squares of at least (n-1)/n), i.e. <= 1800 n (n-1)^2 4^(offl+sc-52) percent = 1800 n (n-1)^2 2^(2(offl+sc)-64) in 1e-12 percent units.
+SatMul(x, y) == IF x = 0 \/ y = 0 THEN 0 ELSE IF x > 2000000000 \div y THEN 2000000000 ELSE x * y
+RECURSIVE Pow2(_)
+Pow2(k) == IF k <= 0 THEN 1 ELSE IF k >= 31 THEN 2000000000 ELSE 2 * Pow2(k - 1)
+Scaled(c, k) == IF k >= 0 THEN SatMul(c, Pow2(k)) ELSE (c \div Pow2(-k)) + 1
+CentringQ == IF meta.offl = 0 THEN 0 ELSE Scaled(699 * (meta.nr - 1), meta.offl + meta.sc - 20)
+NoiseVarQ == IF meta.offl = 0 THEN 0 ELSE Scaled(1800 * meta.nr * (meta.nr - 1) * (meta.nr - 1), 2 * (meta.offl + meta.sc) - 64)
+SatAdd(x, y) == IF x > 2000000000 - y THEN 2000000000 ELSE x + y
+\* explained variance (1e-12 percent units) at or below which a component counts as "zero": 1e-9 percent (rounding noise left by an exact
+\* deflation is ~1e-28) plus what the centring residue of offset data can show
+VarZeroQ == SatAdd(1000, NoiseVarQ)
+TolRecon == SatAdd(TolAlg, SatMul(2, CentringQ))
+TolVarQ == SatAdd(TolVar, NoiseVarQ \div 10000)          \* excess over 100 % in 1e-9 (relative) units: 1e-12 percent = 1e-14 relative, ten-fold margin
+ClsOf(ev, i) == IF ev.nf[i] = 1 THEN "nan" ELSE IF ev.vx[i] <= VarZeroQ THEN "zero" ELSE "pos"
 
 TInit == /\ l = 1 /\ lastit = 0 /\ site = "PCA" /\ rank = 0 /\ npc = 1 /\ noise = FALSE /\ cblk = FALSE
          /\ pc = 1 /\ phase = "done" /\ tcls = "Zero" /\ first = TRUE /\ a = "Fin" /\ b = "Fin" /\ conv = "Big"
          /\ left = 0 /\ tick = 0 /\ evals = [i \in 1..MaxNpc |-> IF i = 1 THEN "zero" ELSE "unset"] /\ bvar = "fin"
+         /\ nproc = 1 /\ capleft = CapIter /\ meta = [offl |-> 0, sc |-> 0, nr |-> 1, hist |-> 0, warmed |-> 0]
 
 \* rank = exact number of defined components (PCA/CPCA: rank of the centred matrix; PLS1: Krylov dimension; two responses: only a
 \* lower bound 0/1 is known, see c18.py); rlo = rank except where TLC has to search a consistent count
@@ -28,25 +62,35 @@ TReset == /\ IsEv("Reset") /\ Step /\ phase = "done" /\ lastit' = 0
           /\ site' = Ev.site /\ rank' \in Ev.rlo..Ev.rank /\ npc' = Ev.npc /\ noise' = (Ev.noise = 1) /\ cblk' = (Ev.cblk = 1)
           /\ pc' = 0 /\ phase' = "start" /\ tcls' = "Zero" /\ first' = TRUE /\ a' = "Fin" /\ b' = "Fin" /\ conv' = "Big"
           /\ left' = 0 /\ tick' = 0 /\ evals' = [i \in 1..MaxNpc |-> "unset"] /\ bvar' = "fin"
+          /\ Ev.nproc >= 1 /\ nproc' = Ev.nproc /\ Ev.offl \in 0..36 /\ Ev.hist \in {0, 1} /\ Ev.sc \in -30..30 /\ Ev.nr >= 1
+          /\ meta' = [offl |-> Ev.offl, sc |-> Ev.sc, nr |-> Ev.nr, hist |-> Ev.hist, warmed |-> 0] /\ UNCHANGED capleft
+
+\* K7: the harness ran two other fits of the same routine in this process before the case (their passes are counted, not logged)
+TWarm == /\ IsEv("Warm") /\ Step /\ Ev.site = site /\ phase = "start" /\ pc = 0 /\ lastit' = 0
+         /\ meta.hist = 1 /\ meta.warmed = 0 /\ Ev.n = 2 /\ Ev.passes >= 0
+         /\ meta' = [meta EXCEPT !.warmed = 1]
+         /\ UNCHANGED <<vars, nproc, capleft>>
+Warmed == meta.hist = 1 => meta.warmed = 1
 
 Cls(c) == IF c \in {"Fin", "Zero", "XZero"} THEN c ELSE "NaN"          \* "Inf" counts as non-finite
-TStart == /\ IsEv("Start") /\ Step /\ Ev.site = site /\ Ev.pc = pc /\ lastit' = 0
+TStart == /\ IsEv("Start") /\ Step /\ Ev.site = site /\ Ev.pc = pc /\ lastit' = 0 /\ Same /\ Warmed
           /\ IF PropOnly THEN StartAny("Fin") ELSE Start(Cls(Ev.tcls))
 
 \* passes lastit+1 .. Ev.it of the current component; the last logged pass of a component is the one that converged
-TIter == /\ IsEv("Iter") /\ Step /\ Ev.site = site /\ Ev.pc = pc /\ Ev.it > lastit
+TIter == /\ IsEv("Iter") /\ Step /\ Ev.site = site /\ Ev.pc = pc /\ Ev.it > lastit /\ Same
          /\ LET k == Ev.it - lastit IN
             IF PropOnly
             THEN \/ /\ phase = "iter" /\ lastit' = Ev.it
                     /\ UNCHANGED vars
                  \/ /\ phase = "iter" /\ lastit' = 0 /\ Store(IF pc < rank THEN "pos" ELSE "zero")
                     /\ UNCHANGED <<site, rank, npc, noise, cblk, tcls, first, a, b, conv, left, tick, bvar>>
-            ELSE /\ Ev.a = "Fin" /\ Ev.b = "Fin" /\ Ev.conv \in {"Fin", "Zero"}
+            ELSE /\ Ev.a = "Fin" /\ Ev.b = "Fin" /\ Ev.conv \in {"Fin", "Zero"} /\ ~PoisonNow
                  /\ \/ IterCont(k) /\ lastit' = Ev.it
                     \/ IterConv(k) /\ lastit' = 0
+                    \/ IterDie(k) /\ lastit' = 0
 
 \* a component returned without a single pass: the null-component guard
-TNull == /\ IsEv("Null") /\ Step /\ Ev.site = site /\ Ev.pc = pc /\ lastit' = 0
+TNull == /\ IsEv("Null") /\ Step /\ Ev.site = site /\ Ev.pc = pc /\ lastit' = 0 /\ Same
          /\ IF PropOnly
             THEN /\ phase = "iter" /\ Store(IF pc < rank THEN "pos" ELSE "zero")
                  /\ UNCHANGED <<site, rank, npc, noise, cblk, tcls, first, a, b, conv, left, tick, bvar>>
@@ -56,20 +100,36 @@ TNull == /\ IsEv("Null") /\ Step /\ Ev.site = site /\ Ev.pc = pc /\ lastit' = 0
 \* PLS: a latent variable past the exact count is not defined mathematically; when X still has rank left the code may return a
 \* finite component built on rounding noise there (DESIGN Appendix C caveat) - only finiteness is claimed for it
 Allowed(i) == IF site = "PLS" /\ evals[i] = "zero" THEN {"pos", "zero"} ELSE {evals[i]}
-PropDone(ev) == /\ Len(ev.evals) = npc
-                /\ \A i \in 1..npc : ev.evals[i] \in Allowed(i)
+PropDone(ev) == /\ Len(ev.vx) = npc /\ Len(ev.nf) = npc
+                /\ \A i \in 1..npc : ClsOf(ev, i) \in Allowed(i)
                 /\ ev.fin = 1 /\ ev.bvar = "fin"
-                /\ ev.ortho \in 0..TolAlg /\ ev.recon \in -1..TolAlg
-                /\ ev.vsum \in 0..TolVar /\ ev.vgap \in -1..TolGap
-TDone == /\ IsEv("Done") /\ Step /\ Ev.site = site /\ Finish /\ PropDone(Ev) /\ lastit' = 0
+                /\ ev.ortho \in 0..TolAlg /\ ev.recon \in -1..TolRecon
+                /\ ev.vsum \in 0..TolVarQ /\ ev.vgap \in -1..TolGap
+                /\ ev.bgap \in -1..TolGap                         \* CPCA: every non-constant block is explained completely once the defined components are out
+                /\ ev.hdev = (IF meta.hist = 1 THEN 0 ELSE -1)    \* K7: a fit made after other fits equals, bit for bit, the fit a fresh process makes
+TDone == /\ IsEv("Done") /\ Step /\ Ev.site = site /\ Finish /\ PropDone(Ev) /\ lastit' = 0 /\ Same /\ Warmed
 
-\* counter-bounded routines observed as a whole: CntStart, CntPass*, CntExhaust collapse into "it returned"
-TReturned == /\ IsEv("Returned") /\ Step /\ Ev.site = site /\ site \in CounterSites /\ phase = "start"
-             /\ Ev.n >= 0 /\ (site = "NM" => Ev.n <= Ev.cap)
+\* counter-bounded routines observed as a whole: CntStart, CntPass*, CntExhaust collapse into "it returned" - with the counter
+\* inside its cap (k-means: Lloyd iterations seen through hook H6; Nelder-Mead: objective evaluations seen by the callback)
+TReturned == /\ IsEv("Returned") /\ Step /\ Ev.site = site /\ site \in CounterSites /\ phase = "start" /\ Same
+             /\ Ev.n >= 0
+             /\ (site = "NM" => Ev.n \in (Ev.nc + 1)..NMCap(Ev.nc, Ev.iter))
+             /\ (site = "KMEANS" => Ev.n \in 1..KMeansCap)
              /\ phase' = "done" /\ lastit' = 0
              /\ UNCHANGED <<site, rank, npc, noise, cblk, pc, tcls, first, a, b, conv, left, tick, evals, bvar>>
 
-TNext == TReset \/ TStart \/ TIter \/ TNull \/ TDone \/ TReturned
+\* Outside the statement of C18 (c18.py reports a rejection here as EXTRA-FINDING, never as a verdict): the score predictor of a NIPALS site applied
+\* to the training data of a fitted degenerate model.  These lines are validated in a trace of their own: Reset, Pred, Reset, Pred, ...
+\* The predicted scores have the shape of the model's scores, are finite in every component - those beyond the rank are null components, their
+\* predicted scores are zeros, not 0/0 - and reproduce the model's own scores over the mathematically defined components.
+PredOK(ev) == ev.shape = 1 /\ ev.nfw = 0 /\ ev.nfb = 0 /\ ev.dev \in 0..TolRecon
+TPred == /\ IsEv("Pred") /\ Step /\ Ev.site = site /\ site \in NipalsSites /\ phase = "start" /\ pc = 0 /\ Same
+         /\ PredOK(Ev)
+         /\ phase' = "done" /\ lastit' = 0 /\ pc' = npc           \* the fit itself was validated in the main trace: here it counts as finished as the model says
+         /\ evals' = [i \in 1..MaxNpc |-> IF i > npc THEN "unset" ELSE IF i <= rank THEN "pos" ELSE "zero"]
+         /\ UNCHANGED <<site, rank, npc, noise, cblk, tcls, first, a, b, conv, left, tick, bvar>>
+
+TNext == TReset \/ TWarm \/ TStart \/ TIter \/ TNull \/ TDone \/ TReturned \/ TPred
 TSpec == TInit /\ [][TNext]_tvars
 TraceAccepted == Accepted
 Diag == ShowCursor(l)
